@@ -326,3 +326,44 @@ fn c16_wrapper_with_model_record_parser() {
         }
     }
 }
+
+fn model_dtls_record(i: &[u8]) -> IResult<&[u8], tp::DTLSPlaintext> {
+    if i.len() < 2 {
+        return Err(Err::Incomplete(Needed::new(2 - i.len())));
+    }
+    if i[1] & 0x80 != 0 {
+        return Err(Err::Error(Error::new(i, ErrorKind::Tag)));
+    }
+    Ok((&i[2..], tp::DTLSPlaintext {
+        header: tp::DTLSRecordHeader { content_type: tp::TlsRecordType(i[0]), version: tp::TlsVersion(0xfefd), epoch: 0, sequence_number: i[1] as u64, length: 0 },
+        messages: Vec::new(),
+    }))
+}
+
+#[cfg(feature = "thorough")]
+#[kani::proof]
+#[kani::unwind(5)]
+#[kani::stub(tp::parse_dtls_plaintext_record, model_dtls_record)]
+fn c16_dtls_wrapper_with_model_record_parser() {
+    let buf: [u8; 5] = kani::any();
+    let n: usize = kani::any();
+    kani::assume(n <= 5);
+    let b = &buf[..n];
+    let r = ManuallyDrop::new(tp::parse_dtls_plaintext_records(b));
+    let mut pos = 0;
+    let mut k = 0;
+    while pos + 2 <= n && b[pos + 1] & 0x80 == 0 {
+        pos += 2;
+        k += 1;
+    }
+    if k == 0 {
+        vassert!(r.is_err(), "C16.dtls.fails_iff_first_record_does_not_parse");
+    } else {
+        vassert!(r.is_ok(), "C16.dtls.ok_when_first_record_parses");
+        if let Ok((rem, recs)) = &*r {
+            vassert!(recs.len() == k, "C16.dtls.exactly_the_records_that_parse");
+            vassert!(is_sub(b, rem, pos, n - pos), "C16.dtls.remainder_starts_at_first_failing_or_incomplete_record");
+            vcover!(k == 2, "C16.dtls.cover.two_model_records");
+        }
+    }
+}
